@@ -80,8 +80,17 @@ def run(chk):
             from ..core.cfg import CFG as _CFG
             cfg_ = _CFG(f.node)
             okref = bool(app) and qst is not app[0] and cfg_.must_pass([app[0]], [qst])
-            ptx = A.text(pd[0][1])
-            okrel = "bitwise_not" in ptx and ".norm()" in ptx and sname in {n_.id for n_ in ast.walk(pd[0][1]) if isinstance(n_, ast.Name)}
+            ptx = A.text(A.Inliner(f.node).expand(pd[0][1]))
+            for _nm in [x.id for x in ast.walk(pd[0][1]) if isinstance(x, ast.Name)]:
+                _d = [v for st, v, k in b_.get(_nm, []) if v is not None]
+                if len(_d) == 1:
+                    ptx = ptx + " <- " + A.text(_d[0])
+            _names = {n_.id for n_ in ast.walk(pd[0][1]) if isinstance(n_, ast.Name)}
+            for _nm in list(_names):
+                _d = [v for st, v, k in b_.get(_nm, []) if v is not None]
+                if len(_d) == 1:
+                    _names |= {n_.id for n_ in ast.walk(_d[0]) if isinstance(n_, ast.Name)}
+            okrel = "bitwise_not" in ptx and ".norm()" in ptx and sname in _names
             if okref and okrel:
                 break
         chk.verdict("FF5", (f, site), "reference norm <S>.norm() taken before the mask is applied", True if okref else False,
@@ -181,7 +190,9 @@ def run_P5(chk):
     def normalised(e, at, depth=0):
         if depth > 4:
             return False
-        if isinstance(e, ast.BinOp) and isinstance(e.op, ast.Div) and isinstance(e.right, ast.Name) and e.right.id in norms:
+        if isinstance(e, ast.BinOp) and isinstance(e.op, ast.Div) and (
+                (isinstance(e.right, ast.Name) and e.right.id in norms) or
+                (isinstance(e.right, ast.Call) and (A.call_name(e.right) or "").split(".")[-1] in ("sum", "norm"))):
             return True
         if isinstance(e, ast.Subscript):          # a selection of normalised values
             return normalised(e.value, at, depth + 1)
@@ -240,8 +251,8 @@ def run_P6(chk):
                 p_ = par[cur]
                 if isinstance(p_, ast.IfExp) and cur is p_.body and any(isinstance(x, ast.Name) and x.id == v for x in ast.walk(p_.test)):
                     guarded = True
-                if isinstance(p_, ast.If) and cur in p_.body and any(isinstance(x, ast.Name) and x.id == v for x in ast.walk(p_.test)):
-                    guarded = True
+                if isinstance(p_, ast.If) and (cur in p_.body or cur in p_.orelse) and any(isinstance(x, ast.Name) and x.id == v for x in ast.walk(p_.test)):
+                    guarded = True          # the division sits in a branch selected by a test on the norm
                 cur = p_
             if not guarded:
                 st = A.stmt_of(d, par)
@@ -253,7 +264,7 @@ def run_P6(chk):
                 guarded = bool(ds) and all(k == "assign" and val is not None and safe(val) for st_, val, k in ds)
                 if not guarded and st in so.cfg.node_of:
                     # an early exit: under the assumption `v` is falsy the division is not reachable from the definition of v
-                    g = so.cfg.specialised({v: False})
+                    g = so.cfg.specialised({v: 0})
                     starts = [st_ for st_, val, k in ds if st_ is not None and st_ in so.cfg.node_of]
                     guarded = bool(starts) and not any(g.path_exists(s0, st) for s0 in starts)
             chk.verdict("P6", (f, d), f"{f.short}: `{A.text(d)}`", True if guarded else False,
